@@ -65,6 +65,10 @@ func (*baseExecutor) GetScanSlice(columnNames []string, tableMeta *types.TableMe
 		case "VARCHAR", "NVARCHAR", "VARCHAR2", "CHAR", "TEXT", "JSON", "TINYTEXT", "MEDIUMTEXT", "LONGTEXT", "ENUM", "SET":
 			var scanVal sql.NullString
 			scanSlice = append(scanSlice, &scanVal)
+		case "DECIMAL", "NUMERIC":
+			// as the text the database gives: a float64 carries about 15 significant digits, a DECIMAL up to 65
+			var scanVal sql.NullString
+			scanSlice = append(scanSlice, &scanVal)
 		case "INT", "SMALLINT", "TINYINT", "BIGINT", "MEDIUMINT":
 			if columnMeta.IsNullable == 0 {
 				scanVal := int64(0)
@@ -76,7 +80,7 @@ func (*baseExecutor) GetScanSlice(columnNames []string, tableMeta *types.TableMe
 		case "DATE", "DATETIME", "TIME", "TIMESTAMP", "YEAR":
 			var scanVal sql.NullTime
 			scanSlice = append(scanSlice, &scanVal)
-		case "DECIMAL", "DOUBLE", "FLOAT":
+		case "DOUBLE", "FLOAT":
 			if columnMeta.IsNullable == 0 {
 				scanVal := float64(0)
 				scanSlice = append(scanSlice, &scanVal)
